@@ -105,9 +105,9 @@ CHECKS['C04'] = dict(
          'structural recount written without stack or running counters (reader_eq_recount_segs, reader_eq_recount_open for missing trailers); '
          'consistent envelopes draw no error; the HL stack is the ancestor chain; the reader never crashes (reader_total). The last clause '
          '(every improper arrangement draws an error) is FALSE of the code: kept as not_nested_reports_full with a proved counterexample and '
-         'a proved _partial; the arrangement classes are known findings. Tied to /repo by 20 000 random segment sequences per run against '
+         'a proved _partial; the arrangement classes are known findings. Tied to /repo by 20 000 random segment sequences per run (plus 2.8 M int() texts incl. every Unicode scalar value) against '
          'the real X12Reader (pop_errors after every segment, cleanup) and an independent Python recount.',
-    note=COMMON_NOTE + ' ASCII count fields; with check_837_lx every LX follows a CLM of the same set.',
+    note=COMMON_NOTE + ' pyInt models CPython int() for every string (Unicode decimal digits and white space tables re-derived from the running Python on every run and compared exhaustively over all scalar values); with check_837_lx every LX follows a CLM of the same set.',
     technique='Lean 4 proof (reader errors = structural recount, totality; unbounded) + random segment-sequence differential',
     design='DESIGN.md §3 C04')
 CHECKS['C12'] = dict(
